@@ -7,6 +7,9 @@ def P(index, level, quick, thorough, **kw):
     return d
 
 PROPS = {
+    "C01": P(1, "exploration",
+             quick=dict(checks=4000, timeout=600),
+             thorough=dict(checks=40000, shards=14, timeout=2400, fuzz=[("FuzzC01", 180)])),
     "C09": P(9, "exploration",
              quick=dict(checks=6000, timeout=600),
              thorough=dict(checks=60000, shards=8, timeout=1800, fuzz=[("FuzzC09", 180)])),
